@@ -225,7 +225,14 @@ func mergeStates(es []edgeState) *State {
 	for i := len(es) - 2; i >= 0; i-- {
 		a := es[i].st
 		common, ra, rb := splitCommon(a.pc, out.pc)
-		c := ra
+		// selector of the merged values: the quantifier-free part of what distinguishes path a. Paths are
+		// told apart by branch conditions (quantifier free); assumed callee postconditions and invariants
+		// (quantified) only ride along, and as ite conditions they would be out of reach of e-matching
+		// and of the pre-instantiation of hypotheses.
+		c := qfPart(ra)
+		if c == True {
+			c = ra
+		}
 		// cells: keep those present in both
 		for _, k := range sortedCells(out.cells) {
 			bv := out.cells[k]
@@ -266,6 +273,24 @@ func mergeStates(es []edgeState) *State {
 		out.pc = And(common, Or(ra, rb))
 	}
 	return out
+}
+
+// qfPart weakens a formula built from and / or by replacing every quantified conjunct or disjunct by true.
+func qfPart(t *Term) *Term {
+	if !hasQuant(t) {
+		return t
+	}
+	if t.kind == 'a' && (t.op == "and" || t.op == "or") {
+		args := make([]*Term, len(t.args))
+		for i, a := range t.args {
+			args[i] = qfPart(a)
+		}
+		if t.op == "and" {
+			return And(args...)
+		}
+		return Or(args...)
+	}
+	return True
 }
 
 // cell identities in first-use order, so that every iteration over cells is deterministic
